@@ -405,7 +405,12 @@ func (q *queryStmtParser) visitExprAtom(ctx *grammar.ExprAtomContext) {
 			valStr = ctx.IntNumber().GetText()
 		}
 
-		val, _ := strconv.ParseFloat(valStr, 64)
+		val, err := strconv.ParseFloat(valStr, 64)
+		if err != nil {
+			// e.g. value out of range(+Inf), which cannot be sent to other nodes
+			q.err = err
+			return
+		}
 		if !q.exprStack.Empty() {
 			q.setExprParam(&stmt.NumberLiteral{Val: val})
 		}
